@@ -430,7 +430,7 @@ def worker(ctx):
 def run(env):
     quick = env.tier == "quick"
     stats = core.run_workers(__name__, "worker", PROP, env.tier, env.seed, env.driver, env.hooks_on,
-                             45 if quick else 600, {"units_per_worker": 600 if quick else 20000})
+                             45 if quick else 600, {"units_per_worker": 1500 if quick else 20000})
     return core.finish(PROP, env.tier, env.seed, LEVEL, stats, env.t0, RULE, min_conclusive=500 if quick else 5000,
                        assumptions=["error: lines never contain a line break (garbage tokens contain no CR/LF)",
                                     "JSON/csv rows never begin with the text error:"])
